@@ -259,7 +259,7 @@ def main():
     ck.encodes(SS.SuiteSparseSolver.solve, SS.KLUSolver.linsolve, SS.UMFPACKSolver.linsolve, SC.SpSolve.solve, SC.SpSolve.linsolve,
                SB.Solver.solve, SB.Solver.linsolve, PF.PFlow.nr_step, DI.ImplicitIter.step, SY.System.j_update)
     thorough = core.tier() == 'thorough'
-    L = 3
+    L = 4 if thorough else 3
     ck.bound(call_sequences=f'<= {L} calls', patterns='2', versions='<= 3', accumulation='3-bus PF system, symbolic point and statuses')
     ck.stub('klu/umfpack symbolic, numeric, solve -> typestate model (pattern mismatch => ValueError, singular => ArithmeticError)',
             'scipy splu -> object remembering the matrix version', 'fg_update, j_update, linear solve in step/nr_step -> recorders')
@@ -275,7 +275,7 @@ def main():
             jobs.append(('ss', seq))
     for seq in (((0, 0), (0, 1, True)), ((0, 0), (0, 1, True), (0, 2, True)), ((0, 0), (1, 2), (1, 1, True)), ((0, 1), (0, 1, True))):
         jobs.append(('ss', seq))
-    for seq in itertools.product([(0, 'none'), (1, 'none'), (1, 'factorize'), (2, 'new_A')], repeat=2):
+    for seq in itertools.product([(0, 'none'), (1, 'none'), (1, 'factorize'), (2, 'new_A')], repeat=3 if thorough else 2):
         jobs.append(('sp', seq))
     jobs += [('step', (h_, lc)) for h_ in (0, 1) for lc in (True, False)] + [('nr', m) for m in ('NR', 'dishonest')] + [('ipadd', 0)]
     ck.merge(core.pmap(job, jobs))
